@@ -107,8 +107,41 @@ def gen_num(rng, depth, ints_only=False):
     return ('bin', rng.choice(ops), gen_num(rng, depth - 1, ints_only), gen_num(rng, depth - 1, ints_only))
 
 
+def _lit(n):
+    """an integer as a tree"""
+    return ('num', 'int', str(n), '') if n >= 0 else ('neg', ('num', 'int', str(-n), ''))
+
+
+def equal_twin(rng, t):
+    """a tree with the same exact value as t, written differently (an integer as int literal, as n.0, as 2n/2; a
+    whole-valued quotient beside the integer it equals): the comparison then sits exactly on its boundary"""
+    try:
+        v = exact(t)
+    except Div0:
+        return None
+    if isinstance(v, bool) or not isinstance(v, Fraction):
+        return None
+    if v.denominator == 1 and abs(v.numerator) < 10 ** 12:
+        n = v.numerator
+        r = rng.random()
+        if r < 0.4:
+            return _lit(n)
+        if r < 0.6 and n >= 0:
+            return ('num', 'dec', str(n), '0')
+        if r < 0.85:
+            return ('bin', '/', _lit(2 * n), ('num', 'int', '2', ''))
+        return ('bin', '*', ('num', 'dot', '', '5'), _lit(2 * n))
+    return t
+
+
 def gen_cmp(rng, depth):
-    return ('bin', rng.choice(['=', '<>', '<', '>', '<=', '>=']), gen_num(rng, depth), gen_num(rng, depth))
+    op = rng.choice(['=', '<>', '<', '>', '<=', '>='])
+    l = gen_num(rng, depth)
+    if rng.random() < 0.3:
+        r = equal_twin(rng, l)
+        if r is not None:
+            return ('bin', op, l, r) if rng.random() < 0.5 else ('bin', op, r, l)
+    return ('bin', op, l, gen_num(rng, depth))
 
 
 def gen_top(rng, depth):
